@@ -242,6 +242,7 @@ PROPS = {
         assumptions=["the registrable domain of each page host is written down by hand in the harness (PAGES table)",
                      "without the css-validation feature procedural operators are opaque selector text"],
         floors=(500_000, 200_000, 8_000_000, 400_000),
+        extra_thorough=[stage(config="native-css", budget_s=300, args=["--set", "scale=0.3"], name="css", count_coverage=False)],
     ),
     "C17": simple(
         rule="case = (1-14 generic hide selectors: class/id selectors with plain, non-ASCII, escaped (backslash-char, hex escapes with terminating "
